@@ -59,6 +59,9 @@ structure ShutCase where
 
 def pCase : P ShutCase := do
   let term ← P.bool; let tc ← P.int; let fi ← P.int; let atStop ← P.nat
+  -- forwarding switched off right before the stop: immaterial to the prediction (the final RA has
+  -- lifetime 0 in any case, and is owed to the hosts that were told a non-zero lifetime before)
+  let _fwOff ← P.bool
   let lat ← P.list P.int
   let adv ← Driver.Sched.pAdvCase
   pure { terminate := term, tc := tc, failIdx := fi, atStop := atStop, lat := lat, adv := adv }
